@@ -75,6 +75,12 @@ fn configs(thorough: bool) -> Vec<Cfg> {
             [false, false, false, false, false, true, false],
             [true, true, true, true, true, true, true],
             [false, false, false, false, false, true, true],
+            [true, false, false, true, false, true, false],
+            [false, true, false, false, true, false, true],
+            [false, false, true, false, true, true, false],
+            [true, true, false, false, false, false, true],
+            [true, false, true, true, true, false, false],
+            [false, true, true, false, false, true, true],
         ]
     };
     for o in &opts {
@@ -440,9 +446,9 @@ pub fn run(ctx: &mut Ctx) {
         let errnos_parent: Vec<i32> = vec![libc::EMFILE, libc::ENFILE, libc::ENOMEM, libc::EAGAIN];
         for (kind, scope, nth) in points {
             let errs: Vec<i32> = if scope == plan::SCOPE_PARENT {
-                if ctx.quick() { vec![*rng.pick(&errnos_parent)] } else { errnos_parent.clone() }
+                errnos_parent.clone()
             } else if ctx.quick() {
-                vec![*rng.pick(&[1, 2, 13, 12, 11, 24, 22]), rng.range(1, 133) as i32]
+                vec![*rng.pick(&[1, 2, 13, 12, 11, 24, 22]), rng.range(1, 133) as i32, rng.range(1, 133) as i32]
             } else {
                 // every errno must round-trip through the status channel: all of them on one step per configuration class, a sample elsewhere
                 if kind == k::EXECVE || (ci % 7 == 0) { (1..=133).collect() } else { vec![1, 2, 13, 12, 24, rng.range(1, 133) as i32, rng.range(1, 133) as i32] }
